@@ -17,7 +17,7 @@ from xdsl.irdl import (AllOf, AnyAttr, AnyOf, AttrSetConstraint, BaseAttr, Const
 from xdsl.utils.exceptions import PyRDLError, VerifyException
 from xdsl.utils.hints import isa
 
-LEVEL = "bounded_symbolic"
+LEVEL = "other"
 EXPLANATION = (
     "Constraint trees are generated from a grammar (Any, Base, Eq, AttrSet, ParamAttrConstraint over a generic two-parameter "
     "attribute and over IntegerType, VarConstraint with shared names at several positions, AnyOf.get / `|` unions of two and "
